@@ -27,6 +27,8 @@ const (
 	outErr     = "err"
 	outPanic   = "panic"
 	outPubFail = "pubfail" // handler succeeds, publishing its output fails
+	outPass    = "pass"    // success, the consumed message itself is returned (message.PassthroughHandler style): its context
+	// already went through the subscriber-side decorators when it reaches the publisher-side ones
 )
 
 type routerMsgPlan struct {
@@ -65,7 +67,7 @@ func runRouter(e *vlib.Env) vlib.Result {
 	byUUID := map[string]*routerMsgPlan{}
 	for h := range plans {
 		hp := &routerHandlerPlan{Name: fmt.Sprintf("%s-h%d", e.ID(), h), Topic: fmt.Sprintf("%s-in%d", e.ID(), h), NoPub: h == 1 && r.Bool()}
-		outs := []string{outOK0, outOK1, outOK2, outErr, outPanic, outPubFail}
+		outs := []string{outOK0, outOK1, outOK2, outErr, outPanic, outPubFail, outPass}
 		if hp.NoPub {
 			outs = []string{outOK0, outErr, outPanic}
 		}
@@ -139,6 +141,8 @@ func runRouter(e *vlib.Env) vlib.Result {
 			panic("c20: scripted handler panic")
 		case outPubFail:
 			return []*message.Message{mk(0, ""), mk(1, "-F")}, nil
+		case outPass:
+			return []*message.Message{msg}, nil
 		}
 		return nil, nil
 	}
@@ -253,7 +257,7 @@ func runRouter(e *vlib.Env) vlib.Result {
 
 	// the harness's own counts
 	wantHandler := map[string]int{
-		"true":  invoked[outOK0] + invoked[outOK1] + invoked[outOK2] + invoked[outPubFail],
+		"true":  invoked[outOK0] + invoked[outOK1] + invoked[outOK2] + invoked[outPubFail] + invoked[outPass],
 		"false": invoked[outErr] + invoked[outPanic],
 	}
 	wantSub := map[string]int{"acked": settledCopies["acked"], "nacked": settledCopies["nacked"]}
